@@ -38,7 +38,7 @@ class BufWorld:
 
     def enter_backend(self, capacity=None):
         ctx = self.cls.buffer_backend(capacity) if capacity is not None else self.cls.buffer_backend()
-        ctx.__enter__()
+        ctx.__enter__()  # like a with statement: if __enter__ raises the context is not active (and __exit__ is never called)
         self.stack.append(("backend", ctx, None))
 
     def exit_innermost(self, exc=None):
